@@ -185,6 +185,90 @@ func c24Mutate(rt *rapid.T, p *gen.Program, kind string) (ctx string, ok bool) {
 		}
 		return "expression", true
 	case "capref-outside-its-block":
+		// variant: the capture group belongs to a decorator's pattern and the
+		// reference follows the decorated block (in the enclosing block)
+		if rapid.Bool().Draw(rt, "afterdeco") {
+			type cand struct {
+				st     *gen.Stmt
+				parent *[]*gen.Stmt
+				name   string
+			}
+			var cands []cand
+			hasNext := func(list []*gen.Stmt) bool { return false }
+			hasNext = func(list []*gen.Stmt) bool {
+				for _, x := range list {
+					if x.Op == "next" || hasNext(x.Then) || hasNext(x.Else) {
+						return true
+					}
+				}
+				return false
+			}
+			capOf := map[string]string{} // decorator -> a named capture of a pattern enclosing its next
+			for _, d := range p.Decos {
+				var find func(list []*gen.Stmt)
+				find = func(list []*gen.Stmt) {
+					for _, x := range list {
+						if x.Op == "cond" && x.Pat != nil && x.LogOp != "||" && hasNext(x.Then) {
+							for _, t := range x.Pat.Toks {
+								if t.Name != "" {
+									capOf[d.Name] = t.Name
+								}
+							}
+						}
+						find(x.Then)
+					}
+				}
+				find(d.Body)
+			}
+			var walk func(list *[]*gen.Stmt, stack []string)
+			walk = func(list *[]*gen.Stmt, stack []string) {
+				for _, x := range *list {
+					if x.Op == "deco" {
+						inside := false
+						for _, n := range stack {
+							if n == x.Deco {
+								inside = true
+							}
+						}
+						if n, ok := capOf[x.Deco]; ok && !inside {
+							cands = append(cands, cand{x, list, n})
+						}
+						walk(&x.Then, append(append([]string{}, stack...), x.Deco))
+						continue
+					}
+					if x.Op == "cond" || x.Op == "otherwise" {
+						walk(&x.Then, stack)
+						if x.HasEls {
+							walk(&x.Else, stack)
+						}
+					}
+				}
+			}
+			walk(&p.Stmts, nil)
+			if len(cands) > 0 {
+				c := cands[rapid.IntRange(0, len(cands)-1).Draw(rt, "decosite")]
+				use := someWrite()
+				capE := &gen.Expr{Op: "cap", Ty: gen.TString, Name: c.name}
+				switch p.Metrics[0].Ty {
+				case gen.TInt:
+					use = &gen.Stmt{Op: "addassign", Metric: use.Metric, Keys: use.Keys, E: &gen.Expr{Op: "call", Ty: gen.TInt, Name: "len", Args: []*gen.Expr{capE}}}
+				case gen.TFloat:
+					use = &gen.Stmt{Op: "assign", Metric: use.Metric, Keys: use.Keys, E: &gen.Expr{Op: "call", Ty: gen.TFloat, Name: "float", Args: []*gen.Expr{{Op: "call", Ty: gen.TInt, Name: "len", Args: []*gen.Expr{capE}}}}}
+				default:
+					use = &gen.Stmt{Op: "assign", Metric: use.Metric, Keys: use.Keys, E: capE}
+				}
+				for i, x := range *c.parent {
+					if x == c.st {
+						nb := append([]*gen.Stmt{}, (*c.parent)[:i+1]...)
+						nb = append(nb, use)
+						nb = append(nb, (*c.parent)[i+1:]...)
+						*c.parent = nb
+						break
+					}
+				}
+				return "after-decorated-block", true
+			}
+		}
 		if len(s.condPat) == 0 {
 			return "", false
 		}
@@ -311,6 +395,13 @@ func c24Mutate(rt *rapid.T, p *gen.Program, kind string) (ctx string, ok bool) {
 		}
 		pt := s.pats[rapid.IntRange(0, len(s.pats)-1).Draw(rt, "site")]
 		bad := rapid.SampledFrom([]string{"(", "[a-", "a**", `\8`, "(?P<x", "x{3,1}"}).Draw(rt, "bad")
+		if rapid.IntRange(0, 3).Draw(rt, "emptyblock") == 0 {
+			// the defective pattern guards a block with nothing in it
+			if kind == "regex-too-long" {
+				bad = strings.Repeat("a", 1100)
+			}
+			return insert(&gen.Stmt{Op: "cond", Pat: &gen.Pattern{ID: 9998, Toks: []gen.PatTok{{Kind: "lit", Lit: "zz" + bad}}}}) + ":empty-block", true
+		}
 		if kind == "regex-too-long" {
 			switch rapid.IntRange(0, 2).Draw(rt, "longform") {
 			case 0:
